@@ -187,3 +187,27 @@ func genResizeUses() []string {
 	}
 	return rows
 }
+
+// genAbortPaths: the statement kinds of every function of fstxn/commit.go (same rendering as shrinkerSpawn): what an
+// aborted transaction does to the cached inodes it may have modified in place.
+func genAbortPaths() []string {
+	var rows []string
+	f, err := parser.ParseFile(token.NewFileSet(), filepath.Join(repo, "fstxn", "commit.go"), nil, 0)
+	if err != nil {
+		fail("abort paths: %v", err)
+	}
+	for _, d := range f.Decls {
+		fd, ok := d.(*ast.FuncDecl)
+		if !ok || fd.Body == nil {
+			continue
+		}
+		var ks []string
+		stmtKinds(fd.Body, &ks)
+		var qs []string
+		for _, k := range ks {
+			qs = append(qs, q(k))
+		}
+		rows = append(rows, "("+q(fd.Name.Name)+", ["+strings.Join(qs, ", ")+"])")
+	}
+	return rows
+}
